@@ -35,6 +35,10 @@ CLAIMED = {
                  "z3 decides on every path that the returned set is exactly the arg-optimum set with its cost and that every DSA move is a best response.",
             "Bounded: domain <= 3 (4 thorough), <= 2 constraints per variable, integer finite costs |c| <= 2^40 plus +/-inf, NaN excluded; "
             "A-DSA periodic actions fired on a canonical timing (each period: all tick, then all messages delivered in any order).", "4/C06", S),
+    "C07": ("S", "Real MGM, MGM2 and DSA computations with stop_cycle chosen in {1,2,3}; start order and FIFO delivery order are solver variables explored exhaustively "
+                 "(sleep-set reduced), tables and random draws symbolic; at quiescence z3/concrete checks decide: no handler raised, everyone finished exactly at cycle k "
+                 "(or at once without neighbour), nothing undelivered.",
+            "Bounded: <= 3 computations, domain 2, k <= 3; canonical schedule for DSA on chain-3 in quick (all schedules in thorough at k=1); a run longer than 150 transitions is reported as non-termination.", "4/C07", S),
     "C12": ("S", "set_value_for_assignment, join and projection executed on symbolic matrix tables; the cell-wise algebraic definition is one "
                  "solver query per path, for every table value, assignment, scope pair and both argument forms.",
             "Bounded: 4 variables with domains 2,2,3,2, scopes of size <= 3, integer (and real, thorough) entries |c| <= 2^40; numpy float64 rounding above 2^53 not modelled.", "4/C12", S),
